@@ -690,8 +690,96 @@ pub fn check(ctx: &mut Ctx) {
 	];
 	ctx.run_sub(&Streams);
 	ctx.run_sub(&DroppedWithFullQueue);
+	ctx.run_sub(&PositionalMethodNotification);
 }
 
 pub fn replay(file: &serde_json::Value) -> Option<i32> {
-	replay_with(&Streams, file, "C05").or_else(|| replay_with(&DroppedWithFullQueue, file, "C05"))
+	replay_with(&Streams, file, "C05").or_else(|| replay_with(&DroppedWithFullQueue, file, "C05")).or_else(|| replay_with(&PositionalMethodNotification, file, "C05"))
+}
+
+// ---------------------------------------------------------------------------------------------
+// a method notification whose positional params begin with the id of a live subscription
+// ---------------------------------------------------------------------------------------------
+
+#[derive(Clone, Debug, Serialize, Deserialize)]
+pub struct PositionalCase {
+	pub string_id: bool,
+	/// somebody listens to the notification's method (`subscribe_to_method`)
+	pub registered: bool,
+	/// delivered inside an array together with an ordinary item for the subscription
+	pub packed: bool,
+	pub id_kind: IdK,
+}
+
+pub struct PositionalMethodNotification;
+
+impl SubCheck for PositionalMethodNotification {
+	type Case = PositionalCase;
+	fn name(&self) -> &'static str {
+		"method-notification-with-positional-params"
+	}
+	fn cases(&self, tier: Tier) -> u32 {
+		tier.pick(400, 4_000)
+	}
+	fn strategy(&self, _tier: Tier) -> BoxedStrategy<PositionalCase> {
+		(any::<bool>(), any::<bool>(), any::<bool>(), prop_oneof![Just(IdK::Number), Just(IdK::String)]).prop_map(|(string_id, registered, packed, id_kind)| PositionalCase { string_id, registered, packed, id_kind }).boxed()
+	}
+	fn run(&self, case: &PositionalCase, obs: &mut Obs) {
+		let rt = rt();
+		rt.block_on(async {
+			let mc = MockClient::new(ClientCfg { id_kind: case.id_kind, ..ClientCfg::default() });
+			let desc = || format!("case={case:?}");
+			let c = mc.client.clone();
+			let t = tokio::spawn(async move { c.subscribe::<Value, _>("sub", rpc_params![], "unsub").await });
+			settle().await;
+			let Some(id) = wire_id_of(&mc.wire_all(), "sub") else {
+				obs.fail("c05/subscribe-not-sent", desc());
+				return;
+			};
+			let sid = if case.string_id { json!("feed-7") } else { json!(7) };
+			mc.push_text(json!({"jsonrpc":"2.0","id":id,"result":sid}).to_string());
+			settle().await;
+			let mut stream = match t.now_or_never() {
+				Some(Ok(Ok(s))) => s,
+				other => {
+					obs.fail("c05/subscribe-failed", format!("{:?}; {}", other.map(|r| r.map(|r| r.map(|_| ()))), desc()));
+					return;
+				}
+			};
+			let mut handler = if case.registered { mc.client.subscribe_to_method::<Value>("ticker").await.ok() } else { None };
+			// `ticker` is an ordinary method notification; its first positional parameter happens to equal the subscription's id
+			let plain = json!({"jsonrpc":"2.0","method":"ticker","params":[sid, {"price": 1}]});
+			let item = json!({"jsonrpc":"2.0","method":"sub","params":{"subscription":sid,"result":{"own": 1}}});
+			if case.packed {
+				mc.push_text(json!([item, plain]).to_string());
+			} else {
+				mc.push_text(item.to_string());
+				mc.push_text(plain.to_string());
+			}
+			settle().await;
+			let mut yielded = vec![];
+			while let Some(Some(Ok(v))) = stream.next().now_or_never() {
+				yielded.push(v);
+			}
+			let handled: Vec<Value> = match handler.as_mut() {
+				Some(h) => {
+					let mut v = vec![];
+					while let Some(Some(Ok(x))) = h.next().now_or_never() {
+						v.push(x);
+					}
+					v
+				}
+				None => vec![],
+			};
+			obs.nontrivial();
+			obs.class(if case.registered { "positional:method-has-a-handler" } else { "positional:method-has-no-handler" });
+			let foreign = yielded.iter().any(|v| *v == json!({"price": 1}));
+			let lost = case.registered && handled != vec![json!([sid, {"price": 1}])];
+			obs.check(!foreign && !lost, "c05/positional-method-notification-routed-to-subscription", || {
+				format!("the stream of subscription {sid} yielded {yielded:?} (its own item is {{\"own\":1}}), the handler of `ticker` got {handled:?}; {}", desc())
+			});
+			obs.check(yielded.first() == Some(&json!({"own": 1})), "c05/stream-lost-items", || format!("yielded {yielded:?}; {}", desc()));
+			obs.check(mc.client.is_connected(), "c05/client-disconnected", || format!("{:?}; {}", mc.shared.events.lock(), desc()));
+		});
+	}
 }
